@@ -448,7 +448,14 @@ func (v *Vue) callFunc(ctx *VueContext, fn any, args ...any) (any, error) {
 	case 0:
 		return nil, nil
 	case 1:
-		// Single return value
+		// Single return value; a function whose only result is an error reports
+		// failure or success, it does not produce a value
+		if fnType.Out(0) == reflect.TypeOf((*error)(nil)).Elem() {
+			if err, ok := out[0].Interface().(error); ok && err != nil {
+				return nil, err
+			}
+			return nil, nil
+		}
 		return out[0].Interface(), nil
 	case 2:
 		// Two return values - second should be error
